@@ -984,12 +984,18 @@ def check_docs(ctx, docs, fmts=FORMATS, modes=MODES):
               documents_skipped_reader_panic=skipped, tree="process.go %s / eventwriter.go %s" % (pmode, emode))
 
 
-def check_multifile(ctx, docs):
+def check_multifile(ctx, docs, only_groups=None):
     """several input files on one command line: every file is a stream of its own (its own encoding, its own symbol
     tables, its own end), so the output must denote the values of the first file followed by those of the second ...
     Oracle only (the model covers one input).  Parts are valid documents the Reader fully observes; text parts are also
     used with their trailing whitespace removed, so that the last token of a file ends at the end of the file."""
     rng = ctx.rng
+    if only_groups is not None:
+        # replay of recorded cases: (format, [parts])
+        obs = btrav_many([p for _, g in only_groups for p in g])
+        lines = ["cli %s files %s" % (f, " ".join(iongen.hx(p) for p in g)) for f, g in only_groups]
+        meta = [(g, f) for f, g in only_groups]
+        return _judge_multifile(ctx, lines, meta, obs, len(only_groups))
     obs = btrav_many([b for _, b in docs])
     good = [b for _, b in docs if obs[b][1] == "ok" and len(b) < 4000]
     if len(good) < 2:
@@ -1019,6 +1025,10 @@ def check_multifile(ctx, docs):
         for f in ("text", "pretty", "binary"):
             lines.append("cli %s files %s" % (f, " ".join(iongen.hx(p) for p in g)))
             meta.append((g, f))
+    _judge_multifile(ctx, lines, meta, obs, len(groups))
+
+
+def _judge_multifile(ctx, lines, meta, obs, ngroups):
     go = run_go(lines, per_case_timeout=25, extra_env={"VH_IONGO": IONGO})
     res = [parse_cli(x) for x in go]
     reread = btrav_many([r[2] for r in res if r[0] == "ok"] + [r[3] for r in res if r[0] == "ok"])
@@ -1045,7 +1055,7 @@ def check_multifile(ctx, docs):
             bad += 1
             ctx.fail("property", "C20-cli-multifile", ln, "%d input files %r: %s" % (len(g), [p[:40] for p in g], why), None)
     ctx.count("C20-cli-multifile", len(lines), lines, sample={"case": lines[0][:160], "answer": go[0][:160]} if lines else None,
-              failures=bad, groups=len(groups))
+              failures=bad, groups=ngroups)
 
 
 def run(ctx):
@@ -1064,6 +1074,9 @@ def replay(ctx, rp):
         ctx.fail("tie", "build", "go build ./cmd/ion-go", log[-1500:])
         return
     t = rp["case"].split(" ")
+    if len(t) >= 4 and t[0] == "cli" and t[2] == "files":
+        check_multifile(ctx, [], only_groups=[(t[1], [bytes.fromhex(x[1:]) for x in t[3:]])])
+        return
     if len(t) != 4 or t[0] != "cli":
         print("not a cli case: " + rp["case"][:100])
         return
